@@ -30,6 +30,26 @@ type ListSpec struct {
 	Styles  []int `json:"style_profiles"`  // profile index per style s0,s1,...
 	Regions []int `json:"region_profiles"` // profile per region r0,...
 	Dates   bool  `json:"stl_dates_in_metadata"`
+	IDs     int   `json:"id_scheme,omitempty"` // 0: s0,s1,.. / r0,r1,..; 1: identifiers equal up to case; 2: equal as numbers
+}
+
+// identifier schemes: distinct identifiers that tie under a weaker comparison a writer might sort by
+// (case-insensitive, numeric, by length) - the output then depends on the map walk unless the order is total
+var styleIDs = [][]string{nil, {"Title", "title", "TITLE", "tITLE", "TiTle", "titlE"}, {"1", "01", "001", "0001", "00001", "000001"}}
+var regionIDs = [][]string{nil, {"Top", "top", "TOP", "tOP", "ToP", "toP"}, {"2", "02", "002", "0002", "00002", "000002"}}
+
+func (ls ListSpec) styleID(i int) string {
+	if ls.IDs == 0 {
+		return fmt.Sprintf("s%d", i)
+	}
+	return styleIDs[ls.IDs][i]
+}
+
+func (ls ListSpec) regionID(i int) string {
+	if ls.IDs == 0 {
+		return fmt.Sprintf("r%d", i)
+	}
+	return regionIDs[ls.IDs][i]
 }
 
 var nStyleProfiles = 6
@@ -72,11 +92,11 @@ func (ls ListSpec) Build() *astisub.Subtitles {
 		s.Metadata.STLCreationDate, s.Metadata.STLRevisionDate = &d, &e
 	}
 	for i, p := range ls.Styles {
-		id := fmt.Sprintf("s%d", i)
+		id := ls.styleID(i)
 		s.Styles[id] = &astisub.Style{ID: id, InlineStyle: styleAttrs(p)}
 	}
 	for i, p := range ls.Regions {
-		id := fmt.Sprintf("r%d", i)
+		id := ls.regionID(i)
 		s.Regions[id] = &astisub.Region{ID: id, InlineStyle: regionAttrs(p)}
 	}
 	for k := 0; k < 2; k++ {
@@ -95,10 +115,10 @@ func (ls ListSpec) Build() *astisub.Subtitles {
 			it.InlineStyle = nil // a writer must not fill in what is absent
 		}
 		if len(ls.Styles) > k {
-			it.Style = s.Styles[fmt.Sprintf("s%d", k)]
+			it.Style = s.Styles[ls.styleID(k)]
 		}
 		if len(ls.Regions) > 0 && k == 0 {
-			it.Region = s.Regions["r0"]
+			it.Region = s.Regions[ls.regionID(0)]
 		}
 		s.Items = append(s.Items, it)
 	}
@@ -135,6 +155,13 @@ func specs(tier core.Tier) []ListSpec {
 				continue
 			}
 			out = append(out, ListSpec{Styles: st, Regions: rg, Dates: true})
+			if len(st) >= 2 || len(rg) >= 2 {
+				for ids := 1; ids <= 2; ids++ {
+					if len(st) <= 3 || tier == core.Thorough {
+						out = append(out, ListSpec{Styles: st, Regions: rg, Dates: true, IDs: ids})
+					}
+				}
+			}
 		}
 	}
 	// larger maps (5-6 entries): rotations and adjacent transpositions only
